@@ -140,6 +140,115 @@ def eval_engine(ctx, case):
         ctx.fail('E-engine-complete', case, {'complete': t.complete, 'want': complete_exp})
 
 
+_chain = None
+
+
+def chain_class():
+    """Engine inspector with a configurable topology: static regions, an end region and a chain of dependent
+    regions (each located by a forward pointer byte read from the previous one)."""
+    global _chain
+    if _chain is None:
+        F = sl.fi()
+
+        class Chain(F.FileInspector):
+            NAME = 'chain'
+            CONFIG = None
+
+            def _initialize(self):
+                cfg = self.CONFIG
+                for i, (off, ln) in enumerate(cfg['static']):
+                    self.new_region('s%d' % i, F.CaptureRegion(off, ln))
+                if cfg['end']:
+                    self.new_region('end', F.EndCaptureRegion(cfg['end']))
+                self.new_region('p0', F.CaptureRegion(cfg['p0'][0], cfg['p0'][1]))
+                self.add_safety_check(F.SafetyCheck.null())
+
+            def post_process(self):
+                depth = self.CONFIG['depth']
+                for i in range(depth):
+                    cur, nxt = 'p%d' % i, 'p%d' % (i + 1)
+                    if self.has_region(cur) and self.region(cur).complete and not self.has_region(nxt):
+                        r = self.region(cur)
+                        if not r.data:
+                            return
+                        self.new_region(nxt, F.CaptureRegion(r.offset + r.length + r.data[0] % 4,
+                                                             1 + r.data[-1] % 3))
+                        return          # one region per call, like the VHDX inspector
+
+            @property
+            def format_match(self):
+                return True
+        _chain = Chain
+    return _chain
+
+
+def chain_expected(cfg, stream):
+    n = len(stream)
+    r = {}
+    for i, (off, ln) in enumerate(cfg['static']):
+        r['s%d' % i] = stream[off:off + ln]
+    if cfg['end']:
+        r['end'] = stream[-cfg['end']:] if n else b''
+    off, ln = cfg['p0']
+    r['p0'] = stream[off:off + ln]
+    for i in range(cfg['depth']):
+        cur = r['p%d' % i]
+        if len(cur) != ln or not cur:
+            break
+        off, ln = off + ln + cur[0] % 4, 1 + cur[-1] % 3
+        r['p%d' % (i + 1)] = stream[off:off + ln]
+    return r
+
+
+def eval_chain(ctx, case):
+    cfg = case['config']
+    stream = bytes(case['stream'])
+    Chain = chain_class()
+    Chain.CONFIG = cfg
+    t = Chain()
+    bad = None
+    for a, b in (sl.chunks_of(len(stream), case['cuts']) if stream else []):
+        if case.get('empty'):
+            t.eat_chunk(b'')
+        t.eat_chunk(stream[a:b])
+        for name in t.context_info:
+            r = t.region(name)
+            if r.data != stream[:b][r.offset:r.offset + len(r.data)]:
+                bad = bad or ('online', name, r.offset, r.data.hex(), b)
+    t.finish()
+    got = {name: t.region(name).data for name in t.context_info}
+    exp = chain_expected(cfg, stream)
+    ctx.clause('E-engine-slice-semantics')
+    if bad:
+        ctx.fail('E-region-exactness-online', case, {'bad': bad})
+    elif got != exp:
+        ctx.fail('E-engine-slice-semantics', case,
+                 {'got': {k: v.hex() for k, v in got.items()}, 'want': {k: v.hex() for k, v in exp.items()}})
+
+
+def run_chain(ctx, idx0):
+    rng = ctx.rng('engine-chain')
+    idx = idx0
+    nconf = ctx.pick(150, 1500)
+    for c in range(nconf):
+        cfg = {'static': [[rng.randrange(0, 9), rng.randrange(0, 4)] for _ in range(rng.randrange(0, 3))],
+               'end': rng.choice([0, 1, 2, 3, 5]), 'p0': [rng.randrange(0, 3), rng.randrange(1, 3)],
+               'depth': rng.randrange(1, 5)}
+        for s in range(ctx.pick(6, 20)):
+            n = rng.randrange(2, ctx.pick(11, 13))
+            stream = bytes(rng.randrange(0, 4) if rng.random() < 0.8 else rng.getrandbits(8) for _ in range(n))
+            for cuts in sl.compositions(n):
+                idx += 1
+                if not ctx.mine(idx):
+                    continue
+                case = {'kind': 'chain', 'config': cfg, 'stream': stream, 'cuts': cuts, 'empty': bool(idx % 3 == 0)}
+                ctx.case(('chain', repr(cfg), stream, tuple(cuts)), nontrivial=len(cuts) >= 1)
+                if idx % 20000 == 1:
+                    ctx.sample('engine-chain', case)
+                eval_chain(ctx, case)
+    ctx.exhaustive['engine: random region topologies (dependency depth <= 4) x all chunkings of streams of length <= %d' % ctx.pick(10, 12)] = True
+
+
 def run_engine(ctx):
     nmax = ctx.pick(11, 15)
     idx = 0
@@ -293,6 +402,8 @@ def eval_stream(ctx, case):
 def evaluate(ctx, case):
     if case['kind'] == 'engine':
         eval_engine(ctx, case)
+    elif case['kind'] == 'chain':
+        eval_chain(ctx, case)
     else:
         eval_stream(ctx, case)
 
@@ -337,6 +448,7 @@ def expand(cuts, n):
 
 def run(ctx):
     run_engine(ctx)
+    run_chain(ctx, 10 ** 9)
     if ctx.shard == 0:
         for fid, spec, insps, scheds, wrap in CANARIES:
             data, _t = ig.build(spec)
